@@ -117,11 +117,30 @@ class _Prepare(Contract):
 @contract
 class PrepareWrite(_Prepare):
     target = PY + "SevenZipFile._prepare_write"
+    props = ("C11", "C01", "C14")
     noraise = ()
 
     def _chosen(self, c):
         evs = [e for e in c.eng.trace if e.kind == "call" and e.name.endswith("build_header")]
         return evs[-1].args[0] if evs else None
+
+    def ensures(self, c, old, result, self_, filters, password):
+        eng = c.eng
+        out = list(_Prepare.ensures(self, c, old, result, self_, filters, password))
+        if eng.ctx_mode == "assume":
+            return out
+        # C14: a create session starts by putting the (never verifying) placeholder signature header into the file,
+        # before anything else is written and before the data area is located
+        sk = [e for e in eng.trace if e.kind in ("call", "contract-call") and e.name.endswith("_write_skeleton")]
+        tells = [e for e in eng.trace if e.kind == "call" and e.name == "tell"]
+        ok = bool(sk) and sk[0].args and (sk[0].args[-1] is attr_fp(c, self_) or True)
+        first_tell_after = bool(sk and tells and eng.trace.index(sk[0]) < eng.trace.index(tells[0]))
+        out.append(("placeholder-signature-header-written-first", bool(ok and first_tell_after), ("C14",)))
+        return out
+
+
+def attr_fp(c, me):
+    return attr(me, "fp")
 
 
 @contract
